@@ -49,6 +49,7 @@ type Fault struct {
 
 // Choices are the AMF-side decisions of a scenario, all drawn from the scenario PRNG.
 type Choices struct {
+	SetupReqLen     int // 0 = as it comes; else the exact size in octets of every PDU SESSION RESOURCE SETUP REQUEST
 	RejectSessionOf int // index+1 of the UE whose PDU session establishment the SMF refuses (0: none), TS 24.501 6.4.1.4
 	NGSetupRespLen  int // 0 = as it comes; else the exact size in octets of the NG SETUP RESPONSE
 	R               *rand.Rand
@@ -1357,116 +1358,148 @@ func (a *AMF) onULNASTransport(ue *ueCtx, p *refnas.Parsed, cur *Event) {
 }
 
 func (a *AMF) sendSetupRequest(ue *ueCtx, pti byte) {
-	r := a.Ch.R
 	ip := make(net.IP, 4)
 	copy(ip, a.Ch.UEIPBase.To4())
 	ip[3] += byte(ue.idx)
 	teid := a.Ch.TEIDBase + uint32(ue.idx)
 	s := Session{UEIndex: ue.idx, PSI: ue.psi, UEIP: ip, TEID: teid, UPF: a.Ch.UPF}
 	a.Sessions = append(a.Sessions, s)
-	// 5GSM accept
-	sm := []byte{0x2e, byte(ue.psi), pti, 0xc2, 0x11, byte(a.Ch.QosRulesLen >> 8), byte(a.Ch.QosRulesLen)}
-	q := make([]byte, a.Ch.QosRulesLen)
-	r.Read(q)
-	if len(q) >= 7 && r.Intn(3) == 0 { // content that looks like a PDU address element is still content
-		copy(q[r.Intn(len(q)-6):], []byte{0x29, 0x05, 0x01, 0xde, 0xad, 0xbe, 0xef})
-	}
-	sm = append(sm, q...)
-	sm = append(sm, 0x06, 0x06, 0x00, 0x64, 0x06, 0x00, 0x64)
-	if a.Ch.AcceptOptMask&1 != 0 {
-		sm = append(sm, 0x59, 0x32)
-	}
-	sm = append(append(sm, 0x29, 0x05, 0x01), ip...)
-	if a.Ch.AcceptOptMask&2 != 0 {
-		sm = append(sm, 0x22, 0x04, byte(a.Cfg.SST), 1, 2, 3)
-	}
-	if a.Ch.AcceptOptMask&4 != 0 {
-		n := 3 + r.Intn(300)
-		sm = append(sm, 0x79, byte(n>>8), byte(n))
-		fd := make([]byte, n)
-		r.Read(fd)
-		sm = append(sm, fd...)
-	}
-	if a.Ch.AcceptOptMask&8 != 0 {
-		sm = append(sm, 0x25, 0x09, 0x08, 'i', 'n', 't', 'e', 'r', 'n', 'e', 't')
-	}
-	mm := []byte{0x7e, 0x00, 0x68, 0x01, byte(len(sm) >> 8), byte(len(sm))}
-	mm = append(append(mm, sm...), 0x12, byte(ue.psi))
-	prot, c := a.protectDL(ue, 2, mm)
-	// transfer
-	var t ngapType.PDUSessionResourceSetupRequestTransfer
-	addT := func(id int64, f func(v *ngapType.PDUSessionResourceSetupRequestTransferIEsValue)) {
-		ie := ngapType.PDUSessionResourceSetupRequestTransferIEs{}
-		ie.Id.Value = id
-		f(&ie.Value)
-		t.ProtocolIEs.List = append(t.ProtocolIEs.List, ie)
-	}
-	if a.Ch.WithAMBR {
-		addT(130, func(v *ngapType.PDUSessionResourceSetupRequestTransferIEsValue) {
-			v.Present = ngapType.PDUSessionResourceSetupRequestTransferIEsPresentPDUSessionAggregateMaximumBitRate
-			v.PDUSessionAggregateMaximumBitRate = &ngapType.PDUSessionAggregateMaximumBitRate{}
-			v.PDUSessionAggregateMaximumBitRate.PDUSessionAggregateMaximumBitRateDL.Value = 4000000000000
-			v.PDUSessionAggregateMaximumBitRate.PDUSessionAggregateMaximumBitRateUL.Value = int64(r.Intn(1 << 30))
-			if r.Intn(3) == 0 { // octets that imitate the header of the tunnel IE that follows (00 8b 00)
-				v.PDUSessionAggregateMaximumBitRate.PDUSessionAggregateMaximumBitRateUL.Value = []int64{0x8b, 0x8b00, 0x01008b00, 0x008b000a}[r.Intn(4)]
-			}
+	// the size-relevant draws are made once; build() is then a function of the QoS rules length (content from r, the
+	// downlink COUNT of u), so that the message can be SIZED: built with throw-away state until it has the wanted length
+	fdLen, ambrUL, ambrPick := 3+a.Ch.R.Intn(300), int64(a.Ch.R.Intn(1<<30)), a.Ch.R.Intn(12)
+	var build func(qosLen int, r *rand.Rand, ue *ueCtx) (ngapType.NGAPPDU, int64, bool)
+	build = func(qosLen int, r *rand.Rand, ue *ueCtx) (ngapType.NGAPPDU, int64, bool) {
+		// 5GSM accept
+		sm := []byte{0x2e, byte(ue.psi), pti, 0xc2, 0x11, byte(qosLen >> 8), byte(qosLen)}
+		q := make([]byte, qosLen)
+		r.Read(q)
+		if len(q) >= 7 && r.Intn(3) == 0 { // content that looks like a PDU address element is still content
+			copy(q[r.Intn(len(q)-6):], []byte{0x29, 0x05, 0x01, 0xde, 0xad, 0xbe, 0xef})
+		}
+		sm = append(sm, q...)
+		sm = append(sm, 0x06, 0x06, 0x00, 0x64, 0x06, 0x00, 0x64)
+		if a.Ch.AcceptOptMask&1 != 0 {
+			sm = append(sm, 0x59, 0x32)
+		}
+		sm = append(append(sm, 0x29, 0x05, 0x01), ip...)
+		if a.Ch.AcceptOptMask&2 != 0 {
+			sm = append(sm, 0x22, 0x04, byte(a.Cfg.SST), 1, 2, 3)
+		}
+		if a.Ch.AcceptOptMask&4 != 0 {
+			n := fdLen
+			sm = append(sm, 0x79, byte(n>>8), byte(n))
+			fd := make([]byte, n)
+			r.Read(fd)
+			sm = append(sm, fd...)
+		}
+		if a.Ch.AcceptOptMask&8 != 0 {
+			sm = append(sm, 0x25, 0x09, 0x08, 'i', 'n', 't', 'e', 'r', 'n', 'e', 't')
+		}
+		mm := []byte{0x7e, 0x00, 0x68, 0x01, byte(len(sm) >> 8), byte(len(sm))}
+		mm = append(append(mm, sm...), 0x12, byte(ue.psi))
+		prot, c := a.protectDL(ue, 2, mm)
+		// transfer
+		var t ngapType.PDUSessionResourceSetupRequestTransfer
+		addT := func(id int64, f func(v *ngapType.PDUSessionResourceSetupRequestTransferIEsValue)) {
+			ie := ngapType.PDUSessionResourceSetupRequestTransferIEs{}
+			ie.Id.Value = id
+			f(&ie.Value)
+			t.ProtocolIEs.List = append(t.ProtocolIEs.List, ie)
+		}
+		if a.Ch.WithAMBR {
+			addT(130, func(v *ngapType.PDUSessionResourceSetupRequestTransferIEsValue) {
+				v.Present = ngapType.PDUSessionResourceSetupRequestTransferIEsPresentPDUSessionAggregateMaximumBitRate
+				v.PDUSessionAggregateMaximumBitRate = &ngapType.PDUSessionAggregateMaximumBitRate{}
+				v.PDUSessionAggregateMaximumBitRate.PDUSessionAggregateMaximumBitRateDL.Value = 4000000000000
+				v.PDUSessionAggregateMaximumBitRate.PDUSessionAggregateMaximumBitRateUL.Value = ambrUL
+				if ambrPick < 4 { // octets that imitate the header of the tunnel IE that follows (00 8b 00)
+					v.PDUSessionAggregateMaximumBitRate.PDUSessionAggregateMaximumBitRateUL.Value = []int64{0x8b, 0x8b00, 0x01008b00, 0x008b000a}[ambrPick]
+				}
+			})
+		}
+		addT(139, func(v *ngapType.PDUSessionResourceSetupRequestTransferIEsValue) {
+			v.Present = ngapType.PDUSessionResourceSetupRequestTransferIEsPresentULNGUUPTNLInformation
+			v.ULNGUUPTNLInformation = &ngapType.UPTransportLayerInformation{Present: 1, GTPTunnel: &ngapType.GTPTunnel{}}
+			v.ULNGUUPTNLInformation.GTPTunnel.TransportLayerAddress.Value = aper.BitString{Bytes: append([]byte(nil), a.Ch.UPF.To4()...), BitLength: 32}
+			v.ULNGUUPTNLInformation.GTPTunnel.GTPTEID.Value = binary.BigEndian.AppendUint32(nil, teid)
 		})
+		addT(134, func(v *ngapType.PDUSessionResourceSetupRequestTransferIEsValue) {
+			v.Present = ngapType.PDUSessionResourceSetupRequestTransferIEsPresentPDUSessionType
+			v.PDUSessionType = &ngapType.PDUSessionType{Value: 0}
+		})
+		addT(136, func(v *ngapType.PDUSessionResourceSetupRequestTransferIEsValue) {
+			v.Present = ngapType.PDUSessionResourceSetupRequestTransferIEsPresentQosFlowSetupRequestList
+			var it ngapType.QosFlowSetupRequestItem
+			it.QosFlowIdentifier.Value = 1
+			it.QosFlowLevelQosParameters.QosCharacteristics.Present = ngapType.QosCharacteristicsPresentNonDynamic5QI
+			it.QosFlowLevelQosParameters.QosCharacteristics.NonDynamic5QI = &ngapType.NonDynamic5QIDescriptor{}
+			it.QosFlowLevelQosParameters.QosCharacteristics.NonDynamic5QI.FiveQI.Value = 9
+			it.QosFlowLevelQosParameters.AllocationAndRetentionPriority.PriorityLevelARP.Value = 8
+			v.QosFlowSetupRequestList = &ngapType.QosFlowSetupRequestList{List: []ngapType.QosFlowSetupRequestItem{it}}
+		})
+		tb, err := per.Marshal(t, "valueExt")
+		if err != nil {
+			a.fail("refamf-internal", "transfer: %v", err)
+			return ngapType.NGAPPDU{}, 0, false
+		}
+		var m ngapType.PDUSessionResourceSetupRequest
+		add := func(id int64, crit uint64, f func(v *ngapType.PDUSessionResourceSetupRequestIEsValue)) {
+			ie := ngapType.PDUSessionResourceSetupRequestIEs{}
+			ie.Id.Value, ie.Criticality.Value = id, aper.Enumerated(crit)
+			f(&ie.Value)
+			m.ProtocolIEs.List = append(m.ProtocolIEs.List, ie)
+		}
+		add(10, 0, func(v *ngapType.PDUSessionResourceSetupRequestIEsValue) {
+			v.Present = 1
+			v.AMFUENGAPID = &ngapType.AMFUENGAPID{Value: ue.amf}
+		})
+		add(85, 0, func(v *ngapType.PDUSessionResourceSetupRequestIEsValue) {
+			v.Present = 2
+			v.RANUENGAPID = &ngapType.RANUENGAPID{Value: ue.ran}
+		})
+		add(74, 0, func(v *ngapType.PDUSessionResourceSetupRequestIEsValue) {
+			v.Present = 5
+			it := ngapType.PDUSessionResourceSetupItemSUReq{}
+			it.PDUSessionID.Value = ue.psi
+			it.PDUSessionNASPDU = &ngapType.NASPDU{Value: prot}
+			it.SNSSAI = a.snssai()
+			it.PDUSessionResourceSetupRequestTransfer = tb
+			v.PDUSessionResourceSetupListSUReq = &ngapType.PDUSessionResourceSetupListSUReq{List: []ngapType.PDUSessionResourceSetupItemSUReq{it}}
+		})
+		var pdu ngapType.NGAPPDU
+		pdu.Present = 1
+		pdu.InitiatingMessage = &ngapType.InitiatingMessage{}
+		pdu.InitiatingMessage.ProcedureCode.Value = 29
+		pdu.InitiatingMessage.Value.Present = ngapType.InitiatingMessagePresentPDUSessionResourceSetupRequest
+		pdu.InitiatingMessage.Value.PDUSessionResourceSetupRequest = &m
+		return pdu, c, true
 	}
-	addT(139, func(v *ngapType.PDUSessionResourceSetupRequestTransferIEsValue) {
-		v.Present = ngapType.PDUSessionResourceSetupRequestTransferIEsPresentULNGUUPTNLInformation
-		v.ULNGUUPTNLInformation = &ngapType.UPTransportLayerInformation{Present: 1, GTPTunnel: &ngapType.GTPTunnel{}}
-		v.ULNGUUPTNLInformation.GTPTunnel.TransportLayerAddress.Value = aper.BitString{Bytes: append([]byte(nil), a.Ch.UPF.To4()...), BitLength: 32}
-		v.ULNGUUPTNLInformation.GTPTunnel.GTPTEID.Value = binary.BigEndian.AppendUint32(nil, teid)
-	})
-	addT(134, func(v *ngapType.PDUSessionResourceSetupRequestTransferIEsValue) {
-		v.Present = ngapType.PDUSessionResourceSetupRequestTransferIEsPresentPDUSessionType
-		v.PDUSessionType = &ngapType.PDUSessionType{Value: 0}
-	})
-	addT(136, func(v *ngapType.PDUSessionResourceSetupRequestTransferIEsValue) {
-		v.Present = ngapType.PDUSessionResourceSetupRequestTransferIEsPresentQosFlowSetupRequestList
-		var it ngapType.QosFlowSetupRequestItem
-		it.QosFlowIdentifier.Value = 1
-		it.QosFlowLevelQosParameters.QosCharacteristics.Present = ngapType.QosCharacteristicsPresentNonDynamic5QI
-		it.QosFlowLevelQosParameters.QosCharacteristics.NonDynamic5QI = &ngapType.NonDynamic5QIDescriptor{}
-		it.QosFlowLevelQosParameters.QosCharacteristics.NonDynamic5QI.FiveQI.Value = 9
-		it.QosFlowLevelQosParameters.AllocationAndRetentionPriority.PriorityLevelARP.Value = 8
-		v.QosFlowSetupRequestList = &ngapType.QosFlowSetupRequestList{List: []ngapType.QosFlowSetupRequestItem{it}}
-	})
-	tb, err := per.Marshal(t, "valueExt")
-	if err != nil {
-		a.fail("refamf-internal", "transfer: %v", err)
+	qosLen := a.Ch.QosRulesLen
+	if want := a.Ch.SetupReqLen; want > 0 { // the whole message sized to an exact number of octets (the emulator reads into 2048-octet buffers)
+		for try := 0; try < 8; try++ {
+			scratch := *ue
+			p, _, ok := build(qosLen, rand.New(rand.NewSource(int64(try))), &scratch)
+			if !ok {
+				break
+			}
+			b, err := per.Marshal(p, pduTag)
+			if err != nil || len(b) == want {
+				if err == nil {
+					a.Observ["session-setup-request-sized-"+fmt.Sprint(want)]++
+				}
+				break
+			}
+			qosLen += want - len(b)
+			if qosLen < 0 || qosLen > 4000 {
+				qosLen = a.Ch.QosRulesLen
+				break
+			}
+		}
+	}
+	pdu, c, ok := build(qosLen, a.Ch.R, ue)
+	if !ok {
 		return
 	}
-	var m ngapType.PDUSessionResourceSetupRequest
-	add := func(id int64, crit uint64, f func(v *ngapType.PDUSessionResourceSetupRequestIEsValue)) {
-		ie := ngapType.PDUSessionResourceSetupRequestIEs{}
-		ie.Id.Value, ie.Criticality.Value = id, aper.Enumerated(crit)
-		f(&ie.Value)
-		m.ProtocolIEs.List = append(m.ProtocolIEs.List, ie)
-	}
-	add(10, 0, func(v *ngapType.PDUSessionResourceSetupRequestIEsValue) {
-		v.Present = 1
-		v.AMFUENGAPID = &ngapType.AMFUENGAPID{Value: ue.amf}
-	})
-	add(85, 0, func(v *ngapType.PDUSessionResourceSetupRequestIEsValue) {
-		v.Present = 2
-		v.RANUENGAPID = &ngapType.RANUENGAPID{Value: ue.ran}
-	})
-	add(74, 0, func(v *ngapType.PDUSessionResourceSetupRequestIEsValue) {
-		v.Present = 5
-		it := ngapType.PDUSessionResourceSetupItemSUReq{}
-		it.PDUSessionID.Value = ue.psi
-		it.PDUSessionNASPDU = &ngapType.NASPDU{Value: prot}
-		it.SNSSAI = a.snssai()
-		it.PDUSessionResourceSetupRequestTransfer = tb
-		v.PDUSessionResourceSetupListSUReq = &ngapType.PDUSessionResourceSetupListSUReq{List: []ngapType.PDUSessionResourceSetupItemSUReq{it}}
-	})
-	var pdu ngapType.NGAPPDU
-	pdu.Present = 1
-	pdu.InitiatingMessage = &ngapType.InitiatingMessage{}
-	pdu.InitiatingMessage.ProcedureCode.Value = 29
-	pdu.InitiatingMessage.Value.Present = ngapType.InitiatingMessagePresentPDUSessionResourceSetupRequest
-	pdu.InitiatingMessage.Value.PDUSessionResourceSetupRequest = &m
 	ue.state = "setup"
 	a.down(ue.ran, "PDUSessionResourceSetupRequest", "session-setup", pdu, "DLNASTransport(EstablishmentAccept)", 2, c)
 }
